@@ -118,7 +118,9 @@ func (c *Ctx) Expect(rule, what string, measured, confirmedMin int) {
 	}
 }
 
-func (c *Ctx) Note(format string, args ...interface{}) { c.Notes = append(c.Notes, fmt.Sprintf(format, args...)) }
+func (c *Ctx) Note(format string, args ...interface{}) {
+	c.Notes = append(c.Notes, fmt.Sprintf(format, args...))
+}
 
 // ------------------------------------------------------------------ known findings
 
@@ -242,7 +244,7 @@ func (c *Ctx) WriteEvidence(dir string, meta Meta, seed int, wall float64, cmd s
 		"distinct_nontrivial": len(distinct),
 		"rule": "one obligation per (rule, construct) pair discovered in /repo's current source; an obligation is non-trivial when its construct " +
 			"was located in the source (it has a file:line); distinct = distinct obligation keys",
-		"samples":            samples,
+		"samples":             samples,
 		"obligations_by_rule": rules,
 		"instance_counts":     c.Counts,
 		"functions_analysed":  fns,
